@@ -183,6 +183,8 @@ class FlatColumn:
             self.disposition = ColumnDisposition(self.disposition)
 
         # map literals to OrsoTypes
+        if self.element_type is not None and not isinstance(self.element_type, OrsoTypes):
+            self.element_type = OrsoTypes.from_name(self.element_type)[0]
         if self.type.__class__ is not OrsoTypes:
             self.type, _length, _precision, _scale, _element_type = OrsoTypes.from_name(self.type)
             if self.type == OrsoTypes._MISSING_TYPE:
